@@ -158,4 +158,34 @@ theorem b2mLoop_partial (S : Int → MAsg → Bool) (L : Nat → Nat)
             obtain ⟨i0, i1, i2, i3⟩ := ih mdd1 _ mb1 out mb' hKrest hP1 F.inv hU1 hr
             exact ⟨i0, i1, F.ext.trans i2, i3⟩
 
+theorem assertConsistent_state (m : Mgr) (r : Except Err Unit) (m' : Mgr)
+    (h : assertConsistent m = (r, m')) : m' = m := by
+  unfold assertConsistent at h
+  dsimp only at h
+  split at h
+  · cases h; rfl
+  · split at h
+    · cases h; rfl
+    · split at h <;> (cases h; rfl)
+
+/-- a successful `bdd_to_mdd` is: the preparation (collect, reorder, zones, selection of the
+zone-entry nodes) followed by the main loop started on a fresh `MDD(dvars)` and `umap = {1: 1}` -/
+theorem bddToMdd_unfold (dvars : List MVar) (lev : Option (List Nat)) (mb : Mgr) (out : B2MOut) (mb' : Mgr)
+    (hr : bddToMdd dvars lev mb = (.ok out, mb')) :
+    ∃ (p : B2MPrep) (mb1 : Mgr) (ord : List Nat),
+      b2mPrepare dvars mb = (.ok p, mb1) ∧ bddLevelsOrder p.tbl lev = .ok ord ∧
+      b2mLoop p.rm p.bitToVar ord (MddMgr.new (some dvars)) [(1, 1)] mb1 = (.ok out, mb') := by
+  unfold bddToMdd at hr
+  split at hr
+  · cases hr
+  · next p mb1 hp =>
+    split at hr
+    · cases hr
+    · next mb2 hc =>
+      have := assertConsistent_state mb1 _ mb2 hc
+      subst this
+      split at hr
+      · cases hr
+      · next ord ho => exact ⟨p, _, ord, hp, ho, hr⟩
+
 end DD
